@@ -857,6 +857,7 @@ class Engine(object):
         and whatever the un-overwritten part of the heap holds existed when that part was last havocked."""
         if is_reflike(ty):
             st.assume(z3.And(z >= 0, z < st.alloc + st.nalloc))
+            self.coll_fact(st, ty, z)
             if key is not None:
                 arr, bound = st.base_of(key)
                 t = arr
@@ -929,9 +930,19 @@ class Engine(object):
         st.hset(lkey(e), z3.Store(st.hget(lkey(e)), lst.z, n))
         st.hset(ekey(e), z3.Store(st.hget(ekey(e)), lst.z, arr))
 
+    def coll_tag(self, ty):
+        return self.class_id('$' + sort_key(ty))
+
+    def coll_fact(self, st, ty, z):
+        """a reference of static list / dict type denotes None or a collection of that very kind (never an object or a
+        collection of another kind: lists and dicts carry a type tag from allocation on)"""
+        if isinstance(ty, (ListT, DictT)):
+            st.assume(z3.Or(z == 0, z3.Select(st.hget(('type',)), z) == self.coll_tag(ty)))
+
     def new_list(self, st, elem, items=()):
         r = self.new_ref(st)
         lst = SV(ListT(elem), r)
+        st.hset(('type',), z3.Store(st.hget(('type',)), r, I(self.coll_tag(lst.ty))))
         arr = z3.K(z3.IntSort(), self.default_z(elem))
         for i, it in enumerate(items):
             arr = z3.Store(arr, I(i), self.coerce(it, elem).z)
@@ -1012,6 +1023,7 @@ class Engine(object):
 
     def new_dict(self, st, kt, vt):
         r = self.new_ref(st)
+        st.hset(('type',), z3.Store(st.hget(('type',)), r, I(self.coll_tag(DictT(kt, vt)))))
         has, val, size = dkeys(kt, vt)
         st.hset(has, z3.Store(st.hget(has), r, z3.K(sort_of(kt), B(False))))
         st.hset(size, z3.Store(st.hget(size), r, I(0)))
